@@ -8,6 +8,7 @@ import (
 	"encoding/json"
 	"fmt"
 	"io"
+	"strings"
 	"sync"
 
 	miscreant "github.com/miscreant/miscreant.go"
@@ -118,8 +119,12 @@ func (c *MiscreantCipher) Marshal(s interface{}) (string, error) {
 // Unmarshal takes the marshaled string, base64-decodes into a byte slice, decrypts the
 // byte slice the passed cipher, and unmarshals the resulting JSON into the struct pointer passed
 func (c *MiscreantCipher) Unmarshal(value string, s interface{}) error {
-	// convert base64 string value to bytes
-	ciphertext, err := base64.RawURLEncoding.DecodeString(value)
+	// convert base64 string value to bytes; only the canonical encoding is accepted:
+	// Go's decoder skips '\r' and '\n' and, unless strict, ignores non-zero trailing bits
+	if strings.ContainsAny(value, "\r\n") {
+		return base64.CorruptInputError(strings.IndexAny(value, "\r\n"))
+	}
+	ciphertext, err := base64.RawURLEncoding.Strict().DecodeString(value)
 	if err != nil {
 		return err
 	}
